@@ -13,8 +13,11 @@ import (
 	"encoding/json"
 	"errors"
 	"fmt"
+	"io"
+	"log/slog"
 	"math/big"
 	"os"
+	"path/filepath"
 	"runtime/debug"
 	"strings"
 	"time"
@@ -175,6 +178,14 @@ func runScenario(sc *seqScenario, sid int, tr *Trace, st *Stats, workdir string)
 	w.sid = sid
 	defer w.cleanup()
 	w.orc.scenario = func() any { return sc }
+	if sc.Family == "localcrash" {
+		w.localDir = filepath.Join(dir, "localbackend")
+		lb, err := ctlog.NewLocalBackend(context.Background(), w.localDir, slog.New(slog.NewTextHandler(io.Discard, nil)))
+		if err != nil {
+			panic(err)
+		}
+		w.local = lb
+	}
 	if sc.Family == "stalelock" {
 		w.mute = true // oracle-only: the model's lock store never goes back
 	}
